@@ -648,6 +648,10 @@ def symbolic_programs(tier="quick"):
     add("compose", ["einsum", "ij,j->i", ["roll", x, -1, 0], ["bin", "add", y, y]])
     add("compose", ["bin", "add", ["roll", w, 1, 0], ["roll", w, 1, 1]])
     add("compose", ["roll", ["stack", 0, z, z], 1, 1])
+    x3 = P("x3", ("n", "m", 3))
+    for perm in ([1, 2, 0], [2, 0, 1], [0, 2, 1], [2, 1, 0]):
+        add("transpose3", ["transpose", x3, perm])
+    add("transpose3", ["bin", "add", ["transpose", x3, [1, 2, 0]], P("v3", ("n",))])
     # one axis length written in two ways (equal for every size, structurally different): every operand must still be
     # read along the whole axis, not taken for a broadcast unit axis
     for k, (s1, s2) in enumerate([("n+n", "2*n"), ("n+1", "1+n"), ("n+m", "m+n"), ("3*n-n", "2*n"), ("2*n", "n+n")]):
